@@ -164,7 +164,8 @@ class Environment:
             The sub-simulation lasts until simulation time equals ``until``.
         """
         if not __USIM_STATE__.is_active:
-            usim_run(self.until(until))
+            # the clock of the environment may start below that of a default simulation
+            usim_run(self.until(until), start=min(0, self._initial_time))
             if isinstance(until, Event):
                 if until.triggered:
                     return until.value
